@@ -55,3 +55,10 @@ impl Default for SDJWTCommon {
             r.input_disclosures@.len() == 0, r.sign_alg is None,
     { unimplemented!() }
 }
+// T7: #[derive(thiserror::Error)] gives Error a Display impl
+impl vstd::std_specs::fmt::DisplaySpecImpl for Error {
+    open spec fn fmt_req(&self, f: &core::fmt::Formatter) -> bool { true }
+}
+#[verifier::external]
+impl core::fmt::Display for Error { fn fmt(&self, _f: &mut core::fmt::Formatter<'_>) -> core::fmt::Result { unimplemented!() } }
+impl Error { #[verifier::external_body] pub fn to_string(&self) -> String { unimplemented!() } }
